@@ -179,6 +179,7 @@ type filterPlan struct {
 	HeaderLines int      `json:"header_lines"`
 	WithNth     string   `json:"with_nth"`
 	Nth         string   `json:"nth"` // --nth: search scope
+	SchemeLast  bool     `json:"scheme_last"` // --scheme comes after --tiebreak on the command line: the last one wins
 	Ansi        bool     `json:"ansi"`
 	Decorate    int      `json:"decorate"` // every k-th line carries SGR sequences (0: none)
 	FinalOpen   bool     `json:"final_open"`
@@ -218,6 +219,7 @@ func genFilterPlan(r *zsim.Rng) *filterPlan {
 			p.Lines.Extra = append(p.Lines.Extra, b.String())
 		}
 	}
+	p.SchemeLast = r.Chance(1, 5)
 	if r.Chance(1, 5) {
 		p.Nth = []string{"1", "2", "2..", "-1", "1,3", "..2"}[r.Intn(6)]
 	}
@@ -325,11 +327,14 @@ func (p *filterPlan) args(query string) []string {
 	for _, c := range m.criteria()[1:] {
 		tb = append(tb, map[criterion]string{byChunk: "chunk", byLength: "length", byBegin: "begin", byEnd: "end", byPathname: "pathname"}[c])
 	}
-	a = append(a, "--scheme", []string{"default", "path", "history"}[((m.Scheme%3)+3)%3])
+	tbv := "index"
 	if len(tb) > 0 {
-		a = append(a, "--tiebreak", strings.Join(tb, ","))
+		tbv = strings.Join(tb, ",")
+	}
+	if p.SchemeLast {
+		a = append(a, "--tiebreak", tbv, "--scheme", []string{"default", "path", "history"}[((m.Scheme%3)+3)%3])
 	} else {
-		a = append(a, "--tiebreak", "index")
+		a = append(a, "--scheme", []string{"default", "path", "history"}[((m.Scheme%3)+3)%3], "--tiebreak", tbv)
 	}
 	if !m.Fuzzy {
 		a = append(a, "--exact")
@@ -496,6 +501,7 @@ func expectFilter(c *runCtx, p *filterPlan, opts *Options, records []string, con
 	}
 	mc := p.Match
 	mc.forcePos = accuratePos
+	mc.schemeLast = p.SchemeLast
 	mc.nth = opts.Nth
 	if len(mc.nth) > 0 {
 		c.count("probe.nth_scope", 1)
